@@ -71,6 +71,14 @@ def _tainted_item(taint, esc, it):
         # type invariants cannot be changed by data values
         if isinstance(t, ast.Call) and dotted(t.func) == 'isinstance':
             return False
+        # presence tests of object handles (`assert request`, `assert not self._connection`): the truthiness of an
+        # instance of a repository class without __bool__/__len__ does not depend on data
+        x = t.operand if isinstance(t, ast.UnaryOp) and isinstance(t.op, ast.Not) else t
+        if isinstance(x, (ast.Name, ast.Attribute)):
+            types = taint.res.type_of(fi, x)
+            if types and all(taint.repo.find_method(ci, '__bool__') is None and taint.repo.find_method(ci, '__len__') is None
+                             for ci in types):
+                return False
         return taint.tainted(fi, t)
     if it.kind == 'raise':
         pm = U.parents(fi.node)
@@ -211,6 +219,14 @@ def _digits_only(ctx, fi, arg):
         d = U.local_defs(fi.node).get(arg.value.id, [])
         if len(d) == 1 and d[0][0] is not None and U.attr_name(d[0][0]) == 'groups' and isinstance(d[0][0].func.value, ast.Name):
             mname, k = d[0][0].func.value.id, arg.slice.value + 1
+    alias = None
+    if mname is None and isinstance(arg, ast.Name):
+        # `a, b, c = match.groups()` : arg is the i-th unpacked name
+        d0 = U.local_defs(fi.node).get(arg.id, [])
+        if len(d0) == 1 and d0[0][1].startswith('tuple:') and isinstance(d0[0][0], ast.Call) and U.attr_name(d0[0][0]) == 'groups' \
+                and isinstance(d0[0][0].func.value, ast.Name):
+            mname, k = d0[0][0].func.value.id, int(d0[0][1].split(':')[1]) + 1
+            alias = arg.id
     if mname is None:
         return None
     d = [(v, st) for v, kind, st in U.local_defs(fi.node).get(mname, []) if kind == 'assign' and v is not None
@@ -235,7 +251,7 @@ def _digits_only(ctx, fi, arg):
                 # (digits|<empty>) with a truthiness guard on the same group selects the digit alternative
                 alts = items[0][1][1]
                 nonempty = [list(a) for a in alts if any(o is not C.AT for o, _ in a)]
-                guarded = _group_truthy_guard(fi, arg, mname, k)
+                guarded = _group_truthy_guard(fi, arg, mname, k, alias)
                 if len(nonempty) == 1 and (len(alts) == 1 or guarded):
                     items = nonempty[0]
                 else:
@@ -253,14 +269,26 @@ def _digits_only(ctx, fi, arg):
     return None
 
 
-def _group_truthy_guard(fi, node, mname, k):
+def _group_truthy_guard(fi, node, mname, k, alias=None):
     pm = U.parents(fi.node)
-    want = '%s.group(%d)' % (mname, k)
+    wants = {'%s.group(%d)' % (mname, k)}
+    if alias:
+        wants.add(alias)
+
+    def truthy(p):
+        if norm_text(p) in wants:
+            return True
+        if isinstance(p, ast.Compare) and len(p.ops) == 1 and isinstance(p.ops[0], ast.NotEq):
+            a, b = p.left, p.comparators[0]
+            for x, y in ((a, b), (b, a)):
+                if norm_text(x) in wants and isinstance(y, ast.Constant) and y.value in (b'', ''):
+                    return True
+        return False
     for a in U.ancestors(node, pm):
         if isinstance(a, ast.If):
             t = a.test
             parts = t.values if isinstance(t, ast.BoolOp) and isinstance(t.op, ast.And) else [t]
-            if any(norm_text(p) == want for p in parts) and any(node is x for b in a.body for x in ast.walk(b)):
+            if any(truthy(p) for p in parts) and any(node is x for b in a.body for x in ast.walk(b)):
                 return True
     return False
 
@@ -296,6 +324,8 @@ def run(ctx):
                       'whose handlers cover all of REMOTE_ERRORS')
     ck.rule('C09-D3', 'sibling consistency: every connection.readline() site converts ValueError to ProtocolError; every '
                       'decompress/flush site converts zlib.error to ProtocolError')
+    ck.rule('C09-D6', 'typestate: after a stream reader closes its connection no feasible path (branch conditions on the byte '
+                      'counters taken into account) reads from it again - such a read trips an assertion in the connection layer')
     ck.rule('C09-D5', 'the crash path is as assumed: unexpected exception types are not in the application\'s EXPECTED_EXCEPTIONS, '
                       'REMOTE_ERRORS contains the four per-URL error kinds')
 
@@ -464,3 +494,39 @@ def run(ctx):
                           'a corrupt compressed body raises zlib.error here without conversion', f.loc(c))
     if n_z < 2:
         ck.bad('C09-D3', 'wpull.protocol.http.stream', 'decompressor call sites', 'only %d decompressor sites found (expected 2)' % n_z)
+
+
+    # ------------------------------------------------------------------ D6
+    from .. import flow as F
+    n_close = 0
+    for f in repo.funcs.values():
+        if f.module.name not in ('wpull.protocol.http.stream', 'wpull.protocol.http.chunked', 'wpull.protocol.ftp.stream'):
+            continue
+        cfg = ctx.cfg(f)
+        closes = [n for n in cfg.nodes if n.kind == 'stmt' and any(norm_text(c) in ('self.close()', 'self._connection.close()') for c in F.node_calls(n))]
+        for cn in closes:
+            n_close += 1
+
+            def is_read(m):
+                return any(U.attr_name(c) in ('read', 'readline') and 'connection' in norm_text(c.func.value).lower() for c in F.node_calls(m))
+
+            def is_reopen(m):
+                return any(U.attr_name(c) in ('reconnect', 'connect', 'reset') for c in F.node_calls(m))
+            # facts established on the way into the close: the dominating branch conditions
+            init = {}
+            pm = U.parents(f.node)
+            child = cn.stmt
+            for a in U.ancestors(cn.stmt, pm):
+                if isinstance(a, ast.If):
+                    inbody = any(child is x for x in a.body)
+                    for name, c, allowed in F._constraints(a.test, inbody):
+                        init[(name, c)] = frozenset(allowed)
+                    break
+                child = a
+            p = F.feasible_path(cfg, cn, is_read, stop=is_reopen, init=init)
+            ck.expect(p is None, 'C09-D6', f.qual, 'no connection read after %s' % norm_text(cn.stmt),
+                      'after the connection is closed (%s) a feasible path reaches another read on it: BaseConnection.read asserts '
+                      'the connection state, so an AssertionError (not a per-URL error) ends the crawl' % norm_text(cn.stmt),
+                      f.loc(cn.stmt), path=None if p is None else ' '.join('%s@L%s' % (n.kind, n.lineno) for n, _ in p[-8:]))
+    if n_close < 1:
+        ck.bad('C09-D6', 'wpull.protocol.http.stream', 'close() sites in the body readers', 'no close() site found in the stream readers (expected the overrun cut)')
